@@ -153,9 +153,20 @@ func c16PrepareMap(env *c16Env, it *c16Item) {
 	it.cookie = it.d.cookie
 	ages := []int64{1, 7, v.Cfg.Life / 2, v.Cfg.Life - 1}
 	it.mintAge = ages[rng.Intn(len(ages))]
-	names := c16Pick(rng, c16AttrNames, 4)
+	// the symbol UID is the literal name "uid": in a vector that uses it the other names are drawn without it
+	// (every other vector draws as before)
+	pool := c16AttrNames
+	if c16UidCell(v) != "" {
+		pool = nil
+		for _, n := range c16AttrNames {
+			if n != "uid" {
+				pool = append(pool, n)
+			}
+		}
+	}
+	names := c16Pick(rng, pool, 4)
 	vals := c16Pick(rng, c16AttrValues, 3)
-	it.sym = map[string]string{"F1": names[0], "N1": names[1], "N2": names[2], "NX": names[3], "SI": "SessionIndex",
+	it.sym = map[string]string{"F1": names[0], "N1": names[1], "N2": names[2], "NX": names[3], "SI": "SessionIndex", "UID": "uid",
 		"a": vals[0], "b": vals[1], "c": vals[2], "s1": fmt.Sprintf("_si%08x", rng.Uint32()), "s2": fmt.Sprintf("_sj%08x", rng.Uint32()), "": ""}
 	for _, st := range v.In.Stmts {
 		var cs []c16ConcAttr
@@ -171,16 +182,81 @@ func c16PrepareMap(env *c16Env, it *c16Item) {
 	for _, s := range v.In.Authn {
 		it.authn = append(it.authn, it.sym[s])
 	}
-	pool := append(append([]string{}, c16SafeSubjects...), c16AnySubjects...)
+	subjects := append(append([]string{}, c16SafeSubjects...), c16AnySubjects...)
+	// the statement's subject: the assertion's NameID value, "" when it states none - whatever the attributes hold
 	switch v.In.Subject {
 	case "nameid":
-		it.expSubject = pool[rng.Intn(len(pool))]
+		it.expSubject = subjects[rng.Intn(len(subjects))]
 		it.assertion = c16BuildAssertion(&it.expSubject, true, it.stmts, it.authn)
 	case "noNameID":
 		it.assertion = c16BuildAssertion(nil, true, it.stmts, it.authn)
-	default:
+	case "emptyNameID":
+		empty := ""
+		it.assertion = c16BuildAssertion(&empty, true, it.stmts, it.authn)
+	default: // noSubject (TestC16 breaks on a class it does not know before any vector is concretised)
 		it.assertion = c16BuildAssertion(nil, false, it.stmts, it.authn)
 	}
+}
+
+// c16SubjectText says what the assertion states about its subject and which attributes are called uid.
+func c16SubjectText(it *c16Item) string {
+	t := map[string]string{"nameid": "a NameID with this value", "noSubject": "no Subject element", "noNameID": "a Subject without NameID",
+		"emptyNameID": "a NameID of empty value"}[it.mvec.In.Subject]
+	var uids []string
+	for _, st := range it.stmts {
+		for _, a := range st {
+			if a.Fn == "uid" || a.Name == "uid" {
+				uids = append(uids, fmt.Sprintf("{FriendlyName %q Name %q values %q}", a.Fn, a.Name, a.Vals))
+			}
+		}
+	}
+	if len(uids) == 0 {
+		return " (the assertion has " + t + ")"
+	}
+	return " (the assertion has " + t + "; its attributes called uid: " + strings.Join(uids, ", ") + " - an attribute is no subject)"
+}
+
+// c16CodecSubject decodes the token with the deployment's session codec and returns the subject of the session.
+func c16CodecSubject(d *c16Depl, token string) (subject, typ, derr string) {
+	if p, msg := safely(func() {
+		sp, ok := d.m.Session.(samlsp.CookieSessionProvider)
+		if !ok {
+			derr = fmt.Sprintf("session provider is %T", d.m.Session)
+			return
+		}
+		s, err := sp.Codec.Decode(token)
+		if err != nil {
+			derr = err.Error()
+			return
+		}
+		typ = fmt.Sprintf("%T", s)
+		if c, ok := s.(samlsp.JWTSessionClaims); ok {
+			subject = c.Subject
+		}
+	}); p {
+		derr = "panic: " + msg
+	}
+	return
+}
+
+// c16UidCell names the way a MAP vector's assertion carries an attribute called "uid" (symbol UID): "" = the
+// vector does not use the symbol; byFriendlyName / byName (no FriendlyName) + the number of values of the first
+// such attribute; nameOnly = Name uid under another FriendlyName (the claim is not called uid).
+func c16UidCell(v *c16MapVec) string {
+	cell := ""
+	for _, st := range v.In.Stmts {
+		for _, a := range st {
+			switch {
+			case a.Fn == "UID":
+				return fmt.Sprintf("byFriendlyName/%d", len(a.Vals))
+			case a.Fn == "" && a.Name == "UID":
+				return fmt.Sprintf("byName/%d", len(a.Vals))
+			case a.Name == "UID":
+				cell = "nameOnly"
+			}
+		}
+	}
+	return cell
 }
 
 // c16PrepareLife concretises an assertion with IdP-stated ends around the mint time nowSec - age.
@@ -646,6 +722,53 @@ func TestC16(t *testing.T) {
 		rep.Break("TLC did not refute OnlyMintedSessionTokensAuthenticate under the deviation PreflightBypass (no counterexample in the work directory): the request-shape dimension of the model is vacuous")
 		return
 	}
+	// the subject dimension of part "map", counted from the vectors: every subject class with an assertion that has
+	// no attribute named uid, one named so by FriendlyName and by Name (one and two values), and Name uid under
+	// another FriendlyName; the model (deviations off) predicts the NameID value and nothing else
+	subjDim := map[string]map[string]int{}
+	for _, v := range maps {
+		cell := c16UidCell(v)
+		if cell == "" {
+			cell = "no uid"
+		}
+		if subjDim[v.In.Subject] == nil {
+			subjDim[v.In.Subject] = map[string]int{}
+		}
+		subjDim[v.In.Subject][cell]++
+		want, known := "", true
+		switch v.In.Subject {
+		case "nameid":
+			want = "S"
+		case "noSubject", "noNameID", "emptyNameID":
+		default:
+			known = false
+		}
+		if !known {
+			rep.Break("map vector %s: unknown subject class %q", c16MapKey(v), v.In.Subject)
+			return
+		}
+		if v.Pred.Subj != want {
+			rep.Break("map vector %s: subject class %s but the model (deviations off) predicts the subject %q", c16MapKey(v), v.In.Subject, v.Pred.Subj)
+			return
+		}
+	}
+	for _, sc := range []string{"nameid", "noSubject", "noNameID", "emptyNameID"} {
+		for _, cell := range []string{"no uid", "byFriendlyName/1", "byFriendlyName/2", "byFriendlyName/0", "byName/1", "byName/2", "nameOnly"} {
+			if subjDim[sc][cell] == 0 {
+				rep.Break("vacuous: no assertion of subject class %s with attributes of kind %q", sc, cell)
+				return
+			}
+		}
+	}
+	rep.Extra["assertions_per_subject_class_and_uid_attribute"] = subjDim
+	// the registered configurations have the deviation SubjectFromUid off; a phase before this one runs TLC with it on
+	// (spec/SessionToken_C16subj.cfg) and must have left a counterexample to the exposure invariant
+	if c16Refuted("Invariant ExposesExactlyTheAssertion is violated") {
+		rep.Note("model self-test: with SubjectFromUid on (SessionToken_C16subj.cfg) TLC refutes ExposesExactlyTheAssertion")
+	} else {
+		rep.Break("TLC did not refute ExposesExactlyTheAssertion under the deviation SubjectFromUid (no counterexample in the work directory): the subject dimension of the model is vacuous")
+		return
+	}
 	if saml.MaxIssueDelay != c16TrkLife*time.Second {
 		// a default of the code under test, not a harness failure: tracked-request tokens then carry another exp than
 		// the model's (drift at every such mint); no tracked-request token may authenticate whatever its times
@@ -968,7 +1091,15 @@ func c16RunMap(rep *Report, it *c16Item, now time.Time) {
 	}
 	// exposure
 	if o.Subject != it.expSubject {
-		rep.Violation(it.key+":subject", fmt.Sprintf("subject exposed to the application %q differs from the assertion's %q", o.Subject, it.expSubject), replay("map", nil))
+		rep.Violation(it.key+":subject", fmt.Sprintf("subject exposed to the application %q differs from the assertion's %q%s", o.Subject, it.expSubject, c16SubjectText(it)), replay("map", nil))
+	}
+	// the same through the codec: what Decode returns for the token CreateSession set (JWTSessionClaims.Subject)
+	if cs, typ, derr := c16CodecSubject(it.d, it.token); derr != "" {
+		rep.DriftCase(it.key+":codec", "the session codec does not decode the token RequireAccount accepted", derr)
+	} else if typ != "samlsp.JWTSessionClaims" {
+		rep.DriftCase(it.key+":codec", "the session codec returns a session of another type than JWTSessionClaims", typ)
+	} else if cs != it.expSubject {
+		rep.Violation(it.key+":subject:codec", fmt.Sprintf("subject of the session the codec decodes %q differs from the assertion's %q%s", cs, it.expSubject, c16SubjectText(it)), replay("map", map[string]any{"codec_subject": cs}))
 	}
 	switch {
 	case c16SameAttrs(o.Attrs, expF):
